@@ -634,7 +634,7 @@ class HierarchyElement(DiagLayer):
             # bus is not CAN
             return None
 
-        val = com_param.value
+        val = com_param.get_value()
         if not isinstance(val, str):
             return None
 
@@ -681,7 +681,7 @@ class HierarchyElement(DiagLayer):
         if com_param is None:
             return None
 
-        val = com_param.value
+        val = com_param.get_value()
         if not isinstance(val, str):
             return None
 
@@ -701,7 +701,7 @@ class HierarchyElement(DiagLayer):
         if com_param is None:
             return None
 
-        val = com_param.value
+        val = com_param.get_value()
         if not isinstance(val, str):
             return None
 
